@@ -163,6 +163,7 @@ class SimThread:
 
 class Kernel:
     STEP_NS = 10_000
+    SPIN_WALL_S = 20.0
 
     def __init__(self, choices, max_steps=400_000, max_time_ns=3600 * 10**9):
         self.ch = choices
@@ -187,6 +188,7 @@ class Kernel:
         self.probes = {}          # rare-branch probes
         self.cfg = {}
         self.harness_error = None
+        self.running = None
 
     # ---- identity
     def cur(self):
@@ -326,6 +328,7 @@ class Kernel:
         nxt_t = cands[self.ch.draw(len(cands))] if self.end is None else cands[0]
         if nxt_t.state == "blocked":
             nxt_t.state = "runnable"
+        self.running = nxt_t
         if nxt_t is me and not dying:
             return
         nxt_t.lock.release()
@@ -350,9 +353,40 @@ class Kernel:
         if not cands:
             return "empty"
         first = cands[self.ch.draw(len(cands))]
+        self.running = first
+        # cyclic garbage collection runs finalisers at allocation-count dependent points of whichever thread happens to run:
+        # off during a simulation (reference counting still frees promptly); the driver collects between runs
+        import gc
+        gc_was = gc.isenabled()
+        gc.disable()
+        try:
+            return self._run_loop(first, wall_timeout)
+        finally:
+            if gc_was:
+                gc.enable()
+
+    def _run_loop(self, first, wall_timeout):
         first.lock.release()
-        if not self.done_evt.wait(wall_timeout):
-            import faulthandler
-            faulthandler.dump_traceback(file=sys.stderr)
-            raise HarnessError("harness watchdog: simulation did not end within wall timeout")
+        import time as _t
+        t_end = _t.monotonic() + wall_timeout
+        last = (-1, 0)
+        while not self.done_evt.wait(self.SPIN_WALL_S):
+            # no end yet.  If not a single scheduling step happened during a whole SPIN_WALL_S of wall time, the thread that
+            # holds the baton is looping without ever reaching a seam (a busy loop in the code under test): make it raise
+            # SpinDetected, which the harnesses report as a spin.  A run that merely is long keeps stepping.
+            if self.steps == last[0]:
+                t = self.running
+                real = getattr(t, "real", None)
+                if real is not None and real.ident is not None and real.is_alive() and t.state != "done" and last[1] < 3:
+                    import ctypes
+                    ctypes.pythonapi.PyThreadState_SetAsyncExc(ctypes.c_ulong(real.ident), ctypes.py_object(SpinDetected))
+                    self.spin_injected = getattr(self, "spin_injected", 0) + 1
+                    last = (self.steps, last[1] + 1)
+                    continue
+            else:
+                last = (self.steps, 0)
+            if _t.monotonic() > t_end:
+                import faulthandler
+                faulthandler.dump_traceback(file=sys.stderr)
+                raise HarnessError("harness watchdog: simulation did not end within wall timeout")
         return self.end
